@@ -544,7 +544,8 @@ pub fn record_walks(a: &Args, out: &mut TraceOut, seed_salt: u64, walks: usize, 
 }
 
 /// Directed histories for C12: for every sign type, a transfer with a lost / short / extra chunk / wrong count.
-pub fn record_directed(out: &mut TraceOut, thorough: bool) -> Value {
+pub fn record_directed(out: &mut TraceOut, wrap_pixels: bool, wrap_config: bool) -> Value {
+    let thorough = wrap_pixels;
     let all = [
         SignType::Max3000Front112x16,
         SignType::Max3000Front98x16,
@@ -843,6 +844,8 @@ pub fn record_directed(out: &mut TraceOut, thorough: bool) -> Value {
         v.push(Message::DataChunksSent(ChunkCount(5)));
         v.push(Message::QueryState(a));
         run(out, v, PageFlipStyle::Manual);
+    }
+    if wrap_config {
         // and in the configuration phase
         let mut v = vec![Message::RequestOperation(a, Operation::ReceiveConfig)];
         for _ in 0..65537u32 {
@@ -860,7 +863,7 @@ pub fn record_c13(a: &Args) -> usize {
     let thorough = a.tier == "thorough";
     let info = record_c13_bfs(a, &mut out);
     let w = record_walks(a, &mut out, 0xC13, if thorough { 64 } else { 12 }, if thorough { 3000 } else { 400 });
-    let d = record_directed(&mut out, false);
+    let d = record_directed(&mut out, false, true);
     println!("INFO {}", json!({"bfs": info, "walks": w, "directed": d}));
     out.finish()
 }
@@ -869,7 +872,7 @@ pub fn record_c12(a: &Args) -> usize {
     let mut out = TraceOut::new(&a.out, "C12", a.shards);
     let thorough = a.tier == "thorough";
     let w = record_walks(a, &mut out, 0xC12, if thorough { 96 } else { 16 }, if thorough { 8000 } else { 600 });
-    let d = record_directed(&mut out, thorough);
+    let d = record_directed(&mut out, true, true); // (the 65 536-chunk histories are cheap enough for the quick tier)
     let b = record_bus_walks(a, &mut out, 0xC12B, if thorough { 32 } else { 6 }, if thorough { 3000 } else { 300 }, true);
     println!("INFO {}", json!({"walks": w, "directed": d, "bus": b}));
     out.finish()
